@@ -101,6 +101,16 @@ def run(ck):
                       "facts": {"block": p["block"], "count_none": p["count"] is None,
                                 "dynamic": isinstance(p["count"], dict)}})
     ck.run_and_validate(tasks, TRACE)
+    # directed two-preemption sweeps: a completion / a submission against the hand-over thread's iteration
+    from .. import core as _core
+    pp = {"flavour": "manual", "count": 1, "block": False,
+          "jobs": [{"S": 0, "D": 300, "K": None, "C": False}, {"S": 0, "D": 300, "K": None, "C": False},
+                   {"S": 300, "D": 300, "K": None, "C": False}], "horizon": 3000}
+    swept = _core.phase_tasks("throttle", pp, [("env1", "ThrottleExecutor-t"), ("ThrottleExecutor-t", "env1"),
+                                                ("sub3", "ThrottleExecutor-t"), ("env1", "sub3"), ("sub3", "env1")],
+                              range(1, 50, 5 if quick else 1), range(1, 40, 6 if quick else 1),
+                              facts={"block": False, "count_none": False, "dynamic": False})
+    ck.run_and_validate(swept, TRACE, nontrivial=lambda t, r: True)
     ck.assumptions += [
         "in flight = handed to the delegate and neither finished nor cancelled there (never more than the executor's own count)",
         "virtual time; SLACK = 3 ticks for event hand-offs, 30 s re-check bound for a dynamic count",
